@@ -75,6 +75,8 @@ def edge_cover(spec, limit=4000):
             if wc is None or b not in last:
                 continue
             sent = first[a] + [wc] + last[b]
+            if any("pars_m_" in e for x in sent for e in x.exemplars):
+                continue        # a word written as the pre-processor LEAVES it (placeholder for an escaped quote) is not script text
             key = tuple(id(x) for x in sent)
             if key not in seen:
                 seen.add(key)
